@@ -42,7 +42,7 @@ COMPONENTS = {
              "SDO server (RefSdoServer reference model)"],
 }
 PROBES = ["closed-twice", "dl-exp", "dl-seg", "ul-exp_size", "ul-exp_nosize", "ul-seg_size", "ul-seg_nosize",
-          "closing-empty-segment", "truncated-to-od-size", "zero-progress-write-loop"]
+          "closing-empty-segment", "truncated-to-od-size", "zero-progress-write-loop", "caller-stopped-reading-early"]
 
 LENS = list(range(65)) + [69, 70, 71, 127, 128, 889, 890, 891, 1023, 1024, 1025, 1026]
 DL_API = ("download", "raw", "buffered", "text", "accessor")
@@ -237,6 +237,15 @@ def _transfer(ctx, ch, node, srv, d, length, api, v, pos, stray):
     okind = OD_KINDS[ctx.choice(len(OD_KINDS), "odkind")]
     ntype = NUM_TYPES[ctx.choice(len(NUM_TYPES), "ntype")]
     srv.illegal.clear()
+    if pos > 0 and ctx.choice(8, "peek") == 1:
+        sub2 = (sub + 1) % 256
+        srv.expect = (index, sub2)
+        m0 = ch.n
+        _peek(ctx, node, srv, index, sub, salt)
+        _check_illegal(ctx, srv, "early-stop read of %04X:%02X" % (index, sub2))
+        if any(f.data[0] >> 5 in (1, 2) and (f.data[1] | f.data[2] << 8, f.data[3]) != (index, sub2) for f in ch.frames(can_id=srv.rx_cobid, since=m0)):
+            ctx.violation("C01/illegal-frame/wrong-multiplexer", "early-stop read of %04X:%02X: an initiate frame addresses another object" % (index, sub2))
+        srv.illegal.clear()
     mark = ch.n
     srv.expect = (index, sub)
     if d == 0:
@@ -388,6 +397,33 @@ def _download(ctx, ch, node, srv, index, sub, length, api, variant, okind, ntype
         ctx.violation("C01/download-data-mismatch",
                       "%s: server committed %d bytes %s.., caller wrote %d bytes %s.." % (what, len(cd), cd[:16].hex(), len(data), data[:16].hex()))
     ctx.log("dl-ok", index, sub, length, api, variant)
+
+
+def _peek(ctx, node, srv, index, sub, salt):
+    """A caller that takes only the first bytes of a short value (a length prefix, a magic number) from the raw stream and
+    closes it: the value fits into one segment, so the transfer is complete on the wire, but part of that segment was
+    never handed out.  What it got must be the leading bytes; the transfers that follow in the history are judged as always."""
+    n = 2 + ctx.choice(6, "peeklen")                # 2..7 bytes on the server
+    k = 1 + ctx.choice(n - 1, "peekk")              # 1..n-1 bytes wanted
+    value = world.pattern(n, salt + 77)
+    sub2 = (sub + 1) % 256
+    srv.store[(index, sub2)] = value
+    srv.style.up = ("seg_size", "seg_nosize", "auto")[ctx.choice(3, "peekstyle")]
+    srv.style.seg_len = None
+
+    def do():
+        fp = node.sdo.open(index, sub2, "rb", buffering=0)
+        buf = bytearray(k)
+        got = fp.readinto(buf)
+        fp.close()
+        return bytes(buf[:got])
+    res, exc = call(do)
+    what = "raw readinto(%d bytes) of the %d-byte value at %04X:%02X, then close()" % (k, n, index, sub2)
+    if exc is not None:
+        ctx.violation("C01/upload-raised/%s@%s" % (type(exc).__name__, site(exc)), "%s raised %r" % (what, exc))
+    if res != value[:k]:
+        ctx.violation("C01/upload-data-mismatch/raw", "%s returned %s, the server holds %s" % (what, res.hex(), value.hex()))
+    ctx.probe("caller-stopped-reading-early")
 
 
 def _upload(ctx, ch, node, srv, index, sub, length, api, style, okind, ntype, salt, pos):
